@@ -230,4 +230,29 @@ CHECKS = {
             {"name": "forced-order", "test": "TestForcedOrder", "quick": 60, "thorough": 400, "shards": 8},
         ],
     },
+    "C17": {
+        "pkg": "c17",
+        "level": "exploration",
+        "level_text": ("Exhaustive enumeration over the advertised platform names and the embedded definition files with their variants: "
+                       "static obligations (name <-> file bijection, driver type, single privilege tree, default level, patterns compile, "
+                       "canonical prompt of each level matches its own and the joined pattern, on-open/on-close steps well-formed) and "
+                       "dynamic cases in a synctest bubble against a device model derived from the definition itself (modes = levels, prompts "
+                       "= canonical prompts sampled from the level patterns and chosen as the least-claimed candidate, transitions = the "
+                       "escalate/deescalate strings, password prompt sampled from escalate-prompt): open runs the on-open steps at the default "
+                       "level, every applicable (current, target) pair is navigated, close runs the on-close steps. Thorough runs every pair; "
+                       "quick runs all static obligations, a 1-in-5 deterministic sample of the pairs and rapid-drawn pairs with option layers."),
+        "level_note": ("Trusted: the harness's own YAML structs and merge rule for variants (c17.effective), the regexp sampler (every sample "
+                       "is verified with the real compiled pattern), the claim computation. Levels with equal claim sets count as one."),
+        "technique": "exhaustive enumeration + property-based sampling (rapid) against a definition-derived device model; regexp-syntax sampler for canonical prompts",
+        "rule": ("static: one obligation per (kind, subject); pairs/dynamic: (file, variant, start level, current, target, option layer). "
+                 "Non-trivial: pair at tree distance >= 2, or an authenticated edge on the path, or a variant (dynamic); every static obligation. Distinct = sha1(case)."),
+        "assumptions": ["AuthSecondary is configured (an authenticated escalation without a secret cannot complete against a device that asks)"],
+        "exhaustive_thorough": True,
+        "subs": [
+            {"name": "static", "test": "TestStatic", "quick": None, "thorough": None, "shards": 1, "enum": True},
+            {"name": "pairs", "test": "TestPairs", "quick": None, "thorough": None, "shards": 8, "enum": True},
+            {"name": "dynamic", "test": "TestDynamic", "quick": 150, "thorough": 1500, "shards": 8},
+            {"name": "variants", "test": "TestVariants", "quick": 400, "thorough": 5000, "shards": 2},
+        ],
+    },
 }
